@@ -1,0 +1,45 @@
+//go:build verif
+
+package version
+
+import (
+	"github.com/lindb/lindb/pkg/bufioutil"
+)
+
+// VerifFault decides whether an intercepted manifest operation fails: a non-nil error is returned to the
+// caller and the operation is NOT performed (manifestWrite: no byte of the record reaches the writer).
+type VerifFault func(op, path string) error
+
+type verifFaultWriter struct {
+	verifWriter
+	fault VerifFault
+}
+
+func (w *verifFaultWriter) Write(p []byte) (int, error) {
+	w.h("manifestWrite", w.path, true)
+	if err := w.fault("manifestWrite", w.path); err != nil {
+		w.h("manifestWrite", w.path, false)
+		return 0, err
+	}
+	n, err := w.BufioWriter.Write(p)
+	w.h("manifestWrite", w.path, false)
+	return n, err
+}
+
+// VerifSetFSHookWithFaults is VerifSetFSHook plus a fault injector for the write of a manifest record
+// (asked after the before-call of the hook). Build tag verif only; VerifSetFSHook(nil) restores production.
+func VerifSetFSHookWithFaults(h VerifFSHook, fault VerifFault) {
+	VerifSetFSHook(h)
+	if h == nil || fault == nil {
+		return
+	}
+	newBufferWriterFunc = func(fileName string) (bufioutil.BufioWriter, error) {
+		h("manifestCreate", fileName, true)
+		w, err := bufioutil.NewBufioEntryWriter(fileName)
+		h("manifestCreate", fileName, false)
+		if err != nil {
+			return nil, err
+		}
+		return &verifFaultWriter{verifWriter: verifWriter{BufioWriter: w, path: fileName, h: h}, fault: fault}, nil
+	}
+}
